@@ -64,9 +64,13 @@ func readMany(ctx context.Context, c *opcua.Client, ids []*ua.NodeID) ([]int64, 
 
 const blobLen = 80 * 1024
 
-func makeBlob(id int64) []byte {
-	b := make([]byte, blobLen)
-	for i := 0; i < blobLen; i += 8 {
+const smallBlobLen = 64 // "range" runs: 8 words, read whole or with IndexRange "8:15" (the second word)
+
+func makeBlob(id int64) []byte { return makeBlobN(id, blobLen) }
+
+func makeBlobN(id int64, n int) []byte {
+	b := make([]byte, n)
+	for i := 0; i < n; i += 8 {
 		binary.LittleEndian.PutUint64(b[i:], uint64(id))
 	}
 	return b
@@ -76,7 +80,27 @@ var corruptCtr atomic.Int64
 
 // blobID returns the id a blob carries; a blob whose words disagree (or of the wrong length) gets a fresh negative id,
 // i.e. a value nobody ever wrote.
-func blobID(v interface{}) int64 {
+func blobID(v interface{}) int64 { return blobIDN(v, blobLen, false) }
+
+// blobIDN: full = expected length of the whole value; ranged = the read asked for one word (a server may also
+// ignore the range and return the whole value).
+func blobIDN(v interface{}, full int, ranged bool) int64 {
+	if b, ok := v.([]byte); ok && len(b) > 0 {
+		if len(b) != full && !(ranged && len(b) == 8) {
+			return -1_000_000_000 - corruptCtr.Add(1)
+		}
+		id := int64(binary.LittleEndian.Uint64(b))
+		for i := 8; i+8 <= len(b); i += 8 {
+			if int64(binary.LittleEndian.Uint64(b[i:])) != id {
+				return -1_000_000_000 - corruptCtr.Add(1)
+			}
+		}
+		return id
+	}
+	return blobIDOld(v)
+}
+
+func blobIDOld(v interface{}) int64 {
 	switch b := v.(type) {
 	case nil:
 		return 0
@@ -101,7 +125,11 @@ func blobID(v interface{}) int64 {
 }
 
 func readBlob(ctx context.Context, c *opcua.Client, n *ua.NodeID) (int64, error) {
-	resp, err := c.Read(ctx, &ua.ReadRequest{NodesToRead: []*ua.ReadValueID{{NodeID: n, AttributeID: ua.AttributeIDValue}},
+	return readBlobN(ctx, c, n, blobLen, "")
+}
+
+func readBlobN(ctx context.Context, c *opcua.Client, n *ua.NodeID, full int, indexRange string) (int64, error) {
+	resp, err := c.Read(ctx, &ua.ReadRequest{NodesToRead: []*ua.ReadValueID{{NodeID: n, AttributeID: ua.AttributeIDValue, IndexRange: indexRange}},
 		TimestampsToReturn: ua.TimestampsToReturnNeither})
 	if err != nil {
 		return 0, err
@@ -112,12 +140,16 @@ func readBlob(ctx context.Context, c *opcua.Client, n *ua.NodeID) (int64, error)
 	if resp.Results[0].Value == nil {
 		return 0, nil
 	}
-	return blobID(resp.Results[0].Value.Value()), nil
+	return blobIDN(resp.Results[0].Value.Value(), full, indexRange != ""), nil
 }
 
 func writeBlob(ctx context.Context, c *opcua.Client, n *ua.NodeID, id int64) error {
+	return writeBlobN(ctx, c, n, id, blobLen)
+}
+
+func writeBlobN(ctx context.Context, c *opcua.Client, n *ua.NodeID, id int64, size int) error {
 	resp, err := c.Write(ctx, &ua.WriteRequest{NodesToWrite: []*ua.WriteValue{{NodeID: n, AttributeID: ua.AttributeIDValue,
-		Value: &ua.DataValue{EncodingMask: ua.DataValueValue, Value: ua.MustVariant(makeBlob(id))}}}})
+		Value: &ua.DataValue{EncodingMask: ua.DataValueValue, Value: ua.MustVariant(makeBlobN(id, size))}}}})
 	if err != nil {
 		return err
 	}
@@ -207,6 +239,8 @@ func c34run(run int, mode string, seed uint64, nclients, opsPerWorker, nnodes in
 						var err error
 						if mode == "blob" {
 							err = writeBlob(ctx, c, ids[0], v)
+						} else if mode == "range" {
+							err = writeBlobN(ctx, c, ids[0], v, smallBlobLen)
 						} else {
 							err = writeMany(ctx, c, ids, v)
 						}
@@ -226,6 +260,16 @@ func c34run(run int, mode string, seed uint64, nclients, opsPerWorker, nnodes in
 						if mode == "blob" {
 							var v int64
 							v, err = readBlob(ctx, c, ids[0])
+							vs = []int64{v}
+						} else if mode == "range" {
+							// a third of the reads ask for the second word only: a read of the register projected on
+							// the range; it must not change the register
+							ir := ""
+							if r.Intn(3) == 0 {
+								ir = "8:15"
+							}
+							var v int64
+							v, err = readBlobN(ctx, c, ids[0], smallBlobLen, ir)
 							vs = []int64{v}
 						} else {
 							vs, err = readMany(ctx, c, ids)
@@ -268,8 +312,10 @@ func c34(seed uint64, runs, opsPerWorker int) {
 		nn, ops := 3, opsPerWorker
 		if i%3 == 2 {
 			mode, nn = "group", 4
-		} else if i%3 == 1 {
+		} else if i%6 == 1 {
 			mode, ops = "blob", opsPerWorker/3+4 // 80 KiB values: every request or response spans two chunks
+		} else if i%6 == 4 {
+			mode = "range" // 64-byte ByteString values, whole reads and reads with an IndexRange
 		}
 		if err := c34run(i, mode, r.U64(), 4, ops, nn); err != nil {
 			emit(map[string]interface{}{"kind": "c34err", "run": i, "err": err.Error()})
